@@ -417,6 +417,20 @@ impl BudgetEnforcer {
         Ok(())
     }
 
+    /// The rest of the current document is skipped without being observed (error recovery in the
+    /// streaming iterator) and a new document starts with `start`: forget the containers the
+    /// abandoned document left open and apply the document boundary like on the normal path.
+    pub(crate) fn restart_document(&mut self, start: &Event) {
+        self.depth = 0;
+        self.containers.clear();
+        if self.policy == EnforcingPolicy::PerDocument {
+            self.report.reset();
+            self.defined_anchors.clear();
+        } else {
+            let _ = self.observe(start);
+        }
+    }
+
     fn bump_nodes(&mut self) -> Result<(), BudgetBreach> {
         self.report.nodes += 1;
         if self.report.nodes > self.budget.max_nodes {
